@@ -1052,6 +1052,14 @@ impl Check for FolFrontEnd {
                         format!("C15: `anthem translate --with gamma` on the text differs from gamma of the tree\n  text: {text}\n  exit: {:?}\n  cli : {}\n  lib : {expected}", r.code, r.stdout),
                     );
                 }
+                // and what it prints denotes that theory
+                let tree = fol::Theory { formulas: vec![f0.clone(), fol::Formula::AtomicFormula(fol::AtomicFormula::Truth)] }.gamma();
+                if r.stdout.parse::<fol::Theory>().ok().as_ref() != Some(&tree) {
+                    return Outcome::fail(
+                        "cli-output-reads-differently",
+                        format!("C15: the output of `anthem translate --with gamma` does not read back as gamma of the tree\n  text: {text}\n  cli : {}\n  gamma, own printer: {}", r.stdout, sp::theory(&tree, &Style::plain())),
+                    );
+                }
             }
         }
         Outcome::pass(text.len() + 6 <= full.len(), hash64(&text)).label(format!("via_cli={}", case.via_cli))
@@ -1064,5 +1072,115 @@ impl Check for FolFrontEnd {
             formula: j["formula"].as_str()?.parse().ok()?,
             via_cli: j["via_cli"].as_bool()?,
         })
+    }
+}
+
+// ---------------------------------------------------------------------------------------
+// C15: whatever identifier the input grammars accept, what anthem prints about it reads back
+
+pub struct AcceptedNamesOutput;
+
+#[derive(Clone, Debug)]
+pub struct NameOutCase {
+    pub ident: String,
+    pub role: u8,
+}
+
+const NAME_OUT_ROLES: [&str; 6] = ["program-term", "program-predicate", "theory-term", "theory-predicate", "user-guide", "specification"];
+
+fn reads_back<T: FromStr + Display + PartialEq>(what: &str, tree: &T, ident: &str) -> Option<Outcome> {
+    let text = tree.to_string();
+    match text.parse::<T>() {
+        Ok(back) if back == *tree => None,
+        Ok(_) => Some(Outcome::fail(
+            format!("accepted-name:tree-changed:{what}"),
+            format!("C15: with the accepted identifier {ident:?} the printed {what} reads back as a different tree\n  printed: {text}"),
+        )),
+        Err(_) => Some(Outcome::fail(
+            format!("accepted-name:reparse-rejected:{what}"),
+            format!("C15: with the accepted identifier {ident:?} the printed {what} is rejected when read back\n  printed: {text}"),
+        )),
+    }
+}
+
+impl Check for AcceptedNamesOutput {
+    type Case = NameOutCase;
+    fn name(&self) -> &'static str {
+        "accepted-identifiers"
+    }
+    fn cases(&self, tier: Tier) -> usize {
+        tier.pick(20_000, 400_000)
+    }
+    fn strategy(&self, _tier: Tier) -> BoxedStrategy<NameOutCase> {
+        (crate::generators::text::candidate_identifier(), 0u8..6).prop_map(|(ident, role)| NameOutCase { ident, role }).boxed()
+    }
+    fn rule(&self) -> String {
+        "a candidate identifier (0-3 leading underscores, a letter or digit, a short body; in a third of the cases with a character outside the documented shapes - prime, dash, $, @, non-ASCII letter, double underscore) used as term or predicate of a two-rule program, as term or predicate of a theory, in a user guide (predicate and placeholder declarations) or in a specification; the input grammars decide whether the text is accepted; oracle: for an accepted program every translation (tau*, mu, natural, gamma and completion of tau*) prints a theory that reads back as the same tree, and an accepted theory / user guide / specification prints text that reads back as the same tree; non-trivial = accepted identifier that is not just a letter followed by lower-case letters; distinct by identifier + role".into()
+    }
+    fn run(&self, case: &NameOutCase) -> Outcome {
+        let role = NAME_OUT_ROLES[case.role as usize % 6];
+        // predicates and placeholders start with a lower-case letter: adapt the first letter to the role
+        let at = case.ident.find(|c: char| c != '_').unwrap_or(0);
+        let lowered = format!(
+            "{}{}",
+            &case.ident[..at],
+            case.ident[at..].chars().enumerate().map(|(i, c)| if i == 0 { c.to_ascii_lowercase() } else { c }).collect::<String>()
+        );
+        let id = case.ident.as_str();
+        let rejected = || Outcome::skip("identifier rejected by the grammar");
+        let failure = match case.role % 6 {
+            0 | 1 => {
+                let text = if case.role % 6 == 0 {
+                    format!("p({id}) :- q({id}), not r({id}).\n{{q({id})}} :- r({id}, 1..3).\n")
+                } else {
+                    format!("{lowered}(X) :- q(X), not {lowered}(X, 1).\n{lowered}.\n")
+                };
+                let Ok(program) = text.parse::<asp::Program>() else { return rejected() };
+                let tau = program.clone().tau_star();
+                let mut failure = reads_back("tau-star theory", &tau, id);
+                failure = failure.or_else(|| reads_back("mu theory", &program.clone().mu(), id));
+                if let Some(n) = program.clone().natural() {
+                    failure = failure.or_else(|| reads_back("natural theory", &n, id));
+                }
+                failure = failure.or_else(|| reads_back("gamma theory", &tau.clone().gamma(), id));
+                if let Some(done) = tau.clone().completion(Default::default()) {
+                    failure = failure.or_else(|| reads_back("completion", &done, id));
+                }
+                failure.or_else(|| reads_back("program", &program, id))
+            }
+            2 | 3 => {
+                let upper = id.trim_start_matches('_').chars().next().is_some_and(|c| c.is_uppercase());
+                let text = if case.role % 6 == 3 {
+                    format!("forall X ({lowered}(X) -> q(X) or {lowered}).\n")
+                } else if upper {
+                    format!("forall {id} (p({id}) -> exists {id}$i ({id}$i > 0 and q({id}$i, {id}))).\n")
+                } else {
+                    format!("forall X (p(X) -> X = {id} or q({id}$i + 1, {id}$g)).\n")
+                };
+                let Ok(theory) = text.parse::<fol::Theory>() else { return rejected() };
+                reads_back("theory", &theory, id)
+            }
+            4 => {
+                let text = format!("input: {lowered}/1.\ninput: {lowered} -> integer.\noutput: p/1.\nassumption: forall X ({lowered}(X) -> X != {lowered}).\n");
+                let Ok(ug) = text.parse::<fol::UserGuide>() else { return rejected() };
+                reads_back("user guide", &ug, id)
+            }
+            _ => {
+                let text = format!("spec[{lowered}]: forall X (p(X) <-> {lowered}(X)).\nlemma(forward)[{lowered}_1]: {lowered}(1).\n");
+                let Ok(spec) = text.parse::<fol::Specification>() else { return rejected() };
+                reads_back("specification", &spec, id)
+            }
+        };
+        if let Some(f) = failure {
+            return f;
+        }
+        let plain = id.chars().next().is_some_and(|c| c.is_ascii_alphabetic()) && id.chars().skip(1).all(|c| c.is_ascii_lowercase());
+        Outcome::pass(!plain, hash64(&format!("{id}|{role}"))).label(format!("role={role}")).label(if plain { "plain" } else { "unusual-but-accepted" })
+    }
+    fn describe(&self, case: &NameOutCase) -> Value {
+        json!({"ident": case.ident, "role": case.role})
+    }
+    fn from_replay(&self, j: &Value) -> Option<NameOutCase> {
+        Some(NameOutCase { ident: j["ident"].as_str()?.to_string(), role: j["role"].as_u64()? as u8 })
     }
 }
